@@ -44,6 +44,7 @@ from core.common import f2b, b2f, close, HARNESS, REPO
 
 ID = "C19"
 LEAN_MODULES = ["AcnProofs.C19"]
+TIE_MODULES = ["AcnProofs.Lemmas.CodeTieSimEvent"]
 DRIVER = "drv_C19"
 REQUIRED_THEOREMS = [
     "Acn.C19.place_unique", "Acn.C19.no_wait_while_free", "Acn.C19.fifo_admission",
@@ -381,6 +382,15 @@ def _make_net(case, log):
                 log["trace"].append({"op": "unplug", "sess": session_id, "station": station_id,
                                      "before": before, "snap": snap(self)})
 
+        def update_pilots(self, pilots, i, period):
+            super().update_pilots(pilots, i, period)
+            # the period has just been charged: the simulator's next call into the network must be the post-charging hook
+            # (position in the trace + who is satisfied / waiting at this moment, for the starvation clause of the oracle)
+            log.setdefault("charges", []).append({
+                "pos": len(log["trace"]), "t": int(i),
+                "full": [e.ev.session_id for e in self._EVSEs.values() if e.ev is not None and e.ev.fully_charged],
+                "waiting": list(self.waiting_queue.keys())})
+
         def post_charging_update(self):
             full = [e.ev.session_id for e in self._EVSEs.values() if e.ev is not None and e.ev.fully_charged]
             before = snap(self)
@@ -489,6 +499,7 @@ def _run_once(case, patch=True):
     return {
         "err": err,
         "trace": log["trace"],
+        "charges": log.get("charges", []),
         "choices": log["choices"], "choice_sizes": log["choice_sizes"],
         "events": [[int(e.timestamp), e.event_type, e.ev.session_id] for e in sim.event_history],
         "ev_history": list(sim.ev_history.keys()),
@@ -1029,6 +1040,16 @@ def oracle(case, obs):
                 if rank.get(y, 10 ** 9) < rank.get(x, -1):
                     bad("not_fifo", f"{where}: {x} got station {on[x]} while {y} (arrived earlier) still waits")
         prev = snap
+    # early departure of satisfied EVs: after every charged period a satisfied EV that holds a station while somebody is
+    # waiting must be swapped out before the next period begins (the hook that does it runs right after the charging)
+    if case["early"] and obs["err"] is None:
+        tr = obs["trace"]
+        for c in obs.get("charges", []):
+            hooked = c["pos"] < len(tr) and tr[c["pos"]]["op"] == "post"
+            if not hooked and c["full"] and c["waiting"]:
+                bad("waiting_while_satisfied_ev_holds_station",
+                    f"period {c['t']}: {c['waiting']} waiting, {c['full']} satisfied and still holding stations when the next period began "
+                    f"(early_departure=True)")
     fin = obs["final"]
     if obs["err"] is None:
         if any(x is not None for _, x in fin["occ"]) or fin["waiting"]:
